@@ -235,6 +235,7 @@ def check_case(root, spec, pp, cfg, out, armed):
         out.stats['candidate_enumeration_skipped'] += 1
         return res
     fd = os.open(root, os.O_RDONLY)
+    answers = {}
     try:
       for ci, c in enumerate(cands):
         comps = c.split('/')
@@ -261,6 +262,7 @@ def check_case(root, spec, pp, cfg, out, armed):
         except util.HarnessBudget:
             continue
         out.evaluations += 1
+        answers[c] = bool(m)
         if ci % 2 == 0 and not cfg.get('follow') and '\n' not in c:
             # the same candidate named absolutely against `/**/<last component>`: the globstar starts at the file system root and
             # the candidate reaches its last component through a symlinked directory
@@ -296,6 +298,24 @@ def check_case(root, spec, pp, cfg, out, armed):
             else:
                 out.violation(cs, size=len(text) * 10 + len(c), bucket=('realpath', tuple(sorted(cfg))))
             return res
+      # the filtering entry points judge a list of paths one by one: globfilter / compile().filter keep exactly the candidates that
+      # globmatch accepted above
+      if answers:
+        lc = list(answers)
+        want_f = [c_ for c_ in lc if answers[c_]]
+        try:
+            with util.watchdog(10):
+                got_f = G.globfilter(lc, text, flags=fl | G.REALPATH, root_dir=root)
+                got_c = G.compile(text, flags=fl | G.REALPATH).filter(lc, root_dir=root)
+        except util.HarnessBudget:
+            got_f = got_c = want_f
+        out.evaluations += 2
+        for label, g_ in (('globfilter', got_f), ('compile().filter', got_c)):
+            if list(g_) != want_f:
+                d_ = sorted(set(g_) ^ set(want_f))[0]
+                out.violation(dict(case, problem='%s(REALPATH) keeps other paths through symlinked directories than globmatch accepts one by one' % label,
+                                   name=d_, kept=d_ in g_), size=len(text) * 10 + len(d_), bucket=('realpath-filter', label))
+                return res
     finally:
         os.close(fd)
     return res
